@@ -9,6 +9,9 @@
 // moves the cursor by n, n == 0 only for an empty buffer or at the end of the range; seek moves
 // the cursor to the std position arithmetic, clamped into [0, |win|] (FileView documents clamping
 // where a Cursor would run past the end / report an error).
+// GREEN ONLY UNDER the narrowing preconditions pre_cursor_known (S1), pre_start_offset_no_u64_overflow
+// (S2), pre_current_offset_no_i64_overflow (S3), new/pre_window_inside_file (S4): see NOTES.md --
+// S1-S3 are reproduced misbehaviour of the real code; delete the marked line to expose each.
 use vstd::prelude::*;
 verus! {
 // 64-bit target (the `as usize` / `as u64` casts between u64 and usize are value-preserving)
